@@ -3,6 +3,7 @@ package main
 import (
 	"fmt"
 	"go/ast"
+	"go/constant"
 	"go/types"
 	"sort"
 	"strings"
@@ -96,6 +97,81 @@ func ruleCallGuards(c *Ctx) {
 	argIs("callExFromNative.load.flags-arg", fnCX, "pkg/vm.(*VM).LoadNEFMethod", 4, "param#5")
 	argIs("runtime.LoadScript.load.flags-arg", [3]string{"pkg/core/interop/runtime", "", "LoadScript"}, "pkg/vm.(*VM).LoadDynamicScript", 1, "local<-pkg/vm.(*Stack).Pop")
 	argIs("callInternal.flags-arg", fnCI, symCX, 5, "param#3")
+
+	// a function of package contract that reaches callInternal without being a table-registered system call (the
+	// CALLT handler) must refuse every flag set System.Contract.Call's registration refuses: its flag test is
+	// folded for all subsets of that registration's RequiredFlags
+	var callMask uint64
+	for _, sr := range c.P.Regs().Syscalls {
+		if sr.HandlerObj != nil && FuncKey(sr.HandlerObj) == "pkg/core/interop/contract.Call" && sr.FlagsKnown {
+			callMask = sr.Flags
+		}
+	}
+	registered := map[string]bool{}
+	for _, sr := range c.P.Regs().Syscalls {
+		if sr.HandlerObj != nil {
+			registered[FuncKey(sr.HandlerObj)] = true
+		}
+	}
+	nsib := 0
+	if pk := c.P.Pkg(fnCI[0]); pk != nil && callMask != 0 {
+		var bits []uint64
+		for b := uint64(1); b <= callMask; b <<= 1 {
+			if callMask&b != 0 {
+				bits = append(bits, b)
+			}
+		}
+		for _, fd := range c.P.AllFuncDecls() {
+			if fd.Obj.Pkg() != pk.Types || fd.Decl.Body == nil || registered[FuncKey(fd.Obj)] || FuncKey(fd.Obj) == symCX || fd.Obj.Name() == fnCI[2] {
+				continue
+			}
+			f := c.P.NewFuncCFG(fd)
+			if len(f.CallSites("pkg/core/interop/contract.callInternal")) == 0 || !f.Mentions(fd.Decl.Body, nil)[symGetCallFlags] {
+				continue
+			}
+			nsib++
+			key := "token-call-flags." + FuncKey(fd.Obj)
+			bad := ""
+			undec := ""
+			for sub := 0; sub < 1<<len(bits); sub++ {
+				var fl uint64
+				for i, b := range bits {
+					if sub&(1<<i) != 0 {
+						fl |= b
+					}
+				}
+				m := &miniEval{info: fd.Pkg.TypesInfo, env: map[types.Object]constant.Value{}, tr: &miniTrace{stores: map[int64]constant.Value{}}, flags: &fl, lax: true}
+				m.exec(fd.Decl.Body.List)
+				if m.tr.why != "" {
+					undec = m.tr.why
+					break
+				}
+				reaches := false
+				for _, cn := range append(append([]string{}, m.tr.calls...), m.tr.retCalls...) {
+					if cn == fnCI[2] {
+						reaches = true
+					}
+				}
+				if reaches && fl&callMask != callMask {
+					bad = fmt.Sprintf("with call flags %#x (System.Contract.Call requires %#x) the flag test passes and callInternal is reached", fl, callMask)
+					break
+				}
+				if !reaches && fl&callMask == callMask {
+					bad = fmt.Sprintf("with all of the required flags %#x present callInternal is not reached", callMask)
+					break
+				}
+			}
+			switch {
+			case undec != "":
+				c.Unclassified(key, c.P.Pos(fd.Decl.Pos()), "flag test not folded: "+undec)
+			case bad != "":
+				c.Fail(key, c.P.Pos(fd.Decl.Pos()), fmt.Sprintf("%s calls a contract without going through the system call table: %s", FuncKey(fd.Obj), bad))
+			default:
+				c.OK(key, c.P.Pos(fd.Decl.Pos()), fmt.Sprintf("folded over the %d subsets of %#x: callInternal is reached exactly when all flags System.Contract.Call requires are present", 1<<len(bits), callMask))
+			}
+		}
+	}
+	c.Floor("unregistered contract-calling entry points with their own flag test", nsib, 1)
 
 	// flag-taking loaders are called inside the execution closure only from the two functions above
 	g := c.P.MRG()
